@@ -379,6 +379,7 @@ from extract_catalog import section as catalog_section  # M9b / C20
 EXTRA_SECTIONS.append(catalog_section)
 from extract_expr import expr_section  # noqa: E402  (C16)
 EXTRA_SECTIONS.append(expr_section)
+from extract_crash import crash_facts; EXTRA_SECTIONS.append(crash_facts)  # C05 (EngineCrash.lean)
 
 
 def main(write: bool = True) -> int:
